@@ -310,9 +310,31 @@ func (x *c15) array(a []gen.V, kind int, idx int) {
 		if msg := f.law(got, parts[0]); msg != "" {
 			viol(msg)
 		}
-		if !reflect.DeepEqual(bind, fresh) {
+		if core.Snapshot(bind) != core.Snapshot(fresh) { // compares slices up to their capacity
 			viol("the caller's Go binding was modified by the render")
 			bind, _ = c15Rep(kind, a, c.Rand(idx))
+		}
+	}
+	// results stored with assign must not alias each other or the receiver
+	{
+		src := "{% assign x = a | compact %}{% assign y = x | concat: o %}{% assign z = x | concat: a %}{% assign w = x | concat: o | concat: o %}" +
+			"{% assign r = y %}" + c15Dump + "|{% assign r = z %}" + c15Dump + "|{% assign r = x %}" + c15Dump + "|{% assign r = a %}" + c15Dump
+		if t := x.tpl(src); t != nil {
+			res := core.Render(t, map[string]any{"a": bind, "o": gen.Canon(gen.Arr(other...))})
+			c.Eval(1)
+			c.Obs("filter_applications", 1)
+			want := dumpV(append(append([]gen.V{}, compactWant...), other...)) + "|" + dumpV(append(append([]gen.V{}, compactWant...), a...)) + "|" + dumpV(compactWant) + "|" + recvDump
+			if kind == 5 {
+				want = ""
+			}
+			if want != "" && (!res.OK() || res.Out != want) {
+				c.Violate("aliasing|rep"+fmt.Sprint(kind), "results of array filters stored with assign changed when another filter was applied to the same array later (append in place)",
+					map[string]any{"source": src, "a": desc, "expected": want, "observed": res.Brief()})
+			}
+			if core.Snapshot(bind) != core.Snapshot(fresh) {
+				c.Violate("aliasing-binding|rep"+fmt.Sprint(kind), "the caller's Go binding (including the spare capacity of its slices) was modified by the render", map[string]any{"source": src, "a": desc})
+				bind, _ = c15Rep(kind, a, c.Rand(idx))
+			}
 		}
 	}
 	// scalar-valued filters
